@@ -94,6 +94,7 @@ class ConnectHooks(Hooks):
     # ---- the engine typestate
     def engine(self, I: Interp, obj, method, args, kwargs, site):
         st = self.st
+        self._interp = I
         I.effect("engine", method, args, kwargs, site)
         if method in ("fetchone", "fetchall"):
             ans = st.last_exists
@@ -255,6 +256,11 @@ class ConnectHooks(Hooks):
                 if st.pt.schema == "builtin" and not wrapped:
                     exists = False  # 'information_schema' is stored lower-case by the engine
                 ans = ans and exists
+            elif col in ("SCHEMA_NAME", "CATALOG_NAME") and rhs[0] == "lit" and not holes:
+                # a name the code spells out itself (a schema nobody asked for): whether it exists is not part of the start point
+                name_ = "".join(rhs[1])
+                st.facts.append(("requested by the caller", f"{col.lower()} '{name_}' probed", False, site))
+                ans = ans and self._interp.decide(f"exists {col.lower()} {name_}") if getattr(self, "_interp", None) is not None else False
             else:
                 raise AnalysisError(f"connect model: unexpected existence conjunct on {col} {rhs!r}")
         if "SCHEMA_NAME" in cols_seen:
